@@ -3,10 +3,12 @@ from .. import oracles
 from .refsem import suite
 
 PROPERTY = "C09"
-LEAN_MODULES = ["DAVerif.Props.C09"]
+LEAN_MODULES = ["DAVerif.Props.C09", "DAVerif.Props.C01core", "DAVerif.Props.C04merge"]
 THEOREMS = ["DAVerif." + t for t in (
     "C09_distinctKeys_card", "C09_project_groups", "C09_project_ungrouped", "C09_project_keys", "C09_project_value",
-    "C09_window_rows", "C09_window_value")]
+    "C09_window_rows", "C09_window_value",
+    # the generated SQL (modelled engine): same row count as the reference meaning; one row for an un-grouped project
+    "C09_sql_row_count", "Sql.C09_sql_row_count_merges", "C09_sql_ungrouped_one_row")]
 ASSUMPTIONS = [
     "the relational model `sem` is the Pandas executor (after fixes D13/D13b: groupby(dropna=False)): tied by suite "
     "k4_sem on every run",
